@@ -725,7 +725,9 @@ Section Num.
   Record deckm := mkDeck {
     d_latopts : list string; d_surfs : list surfc; d_trs : list trc;
     d_imps : list (list tok); d_cells : list cellc;
-    d_mats : list (list string); d_skipcomp : bool }.
+    d_mats : list (list string); d_skipcomp : bool;
+    d_flagged : list Z;      (* surfaces written with a boundary flag, * or + *)
+    d_skipbc : bool }.       (* --skip-boundary-conditions *)
 
   Definition quadric (mn : string) : bool := (mn =? "sq") || (mn =? "gq").
 
@@ -1023,6 +1025,17 @@ Section Num.
     | m :: r => do tt <- material_check m; stage_mats r
     end.
 
+  (* writeT4BoundCond / recuperateBoundaryCondition: a boundary flag on a
+     surface made of more than one piece (a macrobody other than SPH / ELL) is
+     not supported; the section is skipped with --skip-boundary-conditions *)
+  Definition stage_bc (sm : smap) (d : deckm) : res unit :=
+    if d_skipbc d then Ok tt
+    else if existsb (fun id => match lookup id sm with
+                               | Some (_, (nm, _)) => (1 <? nm)%nat
+                               | None => false
+                               end) (d_flagged d)
+    then Err ENotImplemented else Ok tt.
+
   Definition validate (d : deckm) : res unit :=
     do lat <- parse_lattice (d_latopts d);
     do trs <- stage_trs (d_trs d) [];
@@ -1033,5 +1046,6 @@ Section Num.
     do tt <- stage_lattice sm cells;
     do tt <- stage_fill sm cells cells;
     do tt <- stage_convert sm cells cells;
-    if d_skipcomp d then Ok tt else stage_mats (d_mats d).
+    do tt <- (if d_skipcomp d then Ok tt else stage_mats (d_mats d));
+    stage_bc sm d.
 End Num.
